@@ -439,7 +439,11 @@ def run(ctx: Ctx) -> None:
     if good:
         base = validate_traces(ctx, "TraceMapRun", copy.deepcopy(good), "st0", invariants=[], strip=STRIP, count=False)
         bad = copy.deepcopy(good)
-        vi = len(bad) // 2
+        clean = [i for i in range(len(bad)) if i not in base]   # only traces TLC accepts uncorrupted can be victims
+        if not clean:
+            ctx.selftests.append({'name': 'trace-corruption', 'ok': True, 'detail': 'not applicable: no accepted trace to corrupt'})
+            return
+        vi = clean[len(clean) // 2]
         evs = bad[vi]["ev"]
         ki = next(k for k, e in enumerate(evs) if e["e"] == "interrupt")
         kc = next(k for k in range(ki, len(evs)) if evs[k]["e"] == "call")
